@@ -1123,9 +1123,11 @@ tp_shutdown(tp_p tp) {
 		return;
 	tp->shutdown ++;
 	/* Private virtual thread. */
-	tp->pvt->state = TP_THREAD_STATE_STOP;
-	if (NULL != tp->s.tpt_on_stop) {
-		tp->s.tpt_on_stop(tp->pvt);
+	if (TP_THREAD_STATE_RUNNING == tp->pvt->state) { /* Started by tp_create(). */
+		tp->pvt->state = TP_THREAD_STATE_STOP;
+		if (NULL != tp->s.tpt_on_stop) {
+			tp->s.tpt_on_stop(tp->pvt);
+		}
 	}
 	/* Shutdown threads. */
 	for (size_t i = 0; i < tp->s.threads_max; i ++) {
